@@ -91,3 +91,245 @@ theorem taxableEvents_truncate (T : Int) (ins : List InTx) (outs : List OutTx) (
   rw [filter_append, filter_append, hA, hB, hC]
 
 end Rp2
+
+namespace Rp2
+open List
+
+theorem lotCtx_sameBelow (sched : List (Int × Method)) (pre post : List InTx) :
+    SameBelow (lotCtx sched pre) (lotCtx sched (pre ++ post)) pre.length := by
+  constructor
+  · intro i hi
+    simp only [lotCtx, getElem?_append_left hi]
+  · intro s; rfl
+
+theorem lotCtx_bound_prefix (sched : List (Int × Method)) (pre post : List InTx) (t : Int) (h : ∀ l ∈ post, t < l.ts.us) :
+    (lotCtx sched (pre ++ post)).bound t = (lotCtx sched pre).bound t := by
+  simp only [lotCtx, filter_append, length_append]
+  have : post.filter (fun l => decide (l.ts.us ≤ t)) = [] := by
+    apply filter_eq_nil_iff.mpr
+    intro l hl
+    have := h l hl
+    simp; omega
+  simp [this]
+
+theorem sheetOrder_filter (ins : List InTx) (q : InTx → Bool) (h : SheetOrder ins) : SheetOrder (ins.filter q) :=
+  ⟨h.1.sublist (filter_sublist), fun l hl => h.2 l (mem_filter.mp hl).1⟩
+
+/-- what a successful `computeFractions` consists of -/
+theorem computeFractions_ok (sched : List (Int × Method)) (ins : List InTx) (outs : List OutTx) (intras : List IntraTx) (fs : List Fraction)
+    (h : computeFractions sched ins outs intras = .ok fs) :
+    (∀ l ∈ sortByTs (·.ts.us) ins, 0 < l.amount) ∧ (∀ e ∈ taxableEvents ins outs intras, 0 < e.amount) ∧
+    ∃ es out, engineEvents sched (taxableEvents ins outs intras) = some es ∧
+      runM (lotCtx sched (sortByTs (·.ts.us) ins)) MSt.init none 0 es = some out ∧
+      fs = decodeFracs (sortByTs (·.ts.us) ins) (taxableEvents ins outs intras) out := by
+  unfold computeFractions at h
+  simp only at h
+  split at h
+  · cases h
+  · rename_i hbad
+    simp only [Bool.or_eq_true, any_eq_true, decide_eq_true_eq, not_or, not_exists, not_and] at hbad
+    split at h
+    · cases h
+    · rename_i es hes
+      split at h
+      · cases h
+      · rename_i out hout
+        simp only [Except.ok.injEq] at h
+        exact ⟨fun l hl => by have := hbad.1 l hl; omega, fun e he => by have := hbad.2 e he; omega, es, out, hes, hout, h.symm⟩
+
+theorem computeFractions_of (sched : List (Int × Method)) (ins : List InTx) (outs : List OutTx) (intras : List IntraTx)
+    (hl : ∀ l ∈ sortByTs (·.ts.us) ins, 0 < l.amount) (he : ∀ e ∈ taxableEvents ins outs intras, 0 < e.amount)
+    (es : List Event) (out : List Frac) (hes : engineEvents sched (taxableEvents ins outs intras) = some es)
+    (hrun : runM (lotCtx sched (sortByTs (·.ts.us) ins)) MSt.init none 0 es = some out) :
+    computeFractions sched ins outs intras = .ok (decodeFracs (sortByTs (·.ts.us) ins) (taxableEvents ins outs intras) out) := by
+  unfold computeFractions
+  simp only
+  have hbad : ¬ ((sortByTs (·.ts.us) ins).any (fun l => decide (l.amount ≤ 0)) || (taxableEvents ins outs intras).any (fun e => decide (e.amount ≤ 0))) = true := by
+    simp only [Bool.or_eq_true, any_eq_true, decide_eq_true_eq, not_or, not_exists, not_and]
+    exact ⟨fun l hl' => by have := hl l hl'; omega, fun e he' => by have := he e he'; omega⟩
+  simp [hbad, hes, hrun]
+end Rp2
+
+namespace Rp2
+open List
+
+theorem decodeFracs_append (lots : List InTx) (evs : List TaxEv) (a b : List Frac) :
+    decodeFracs lots evs (a ++ b) = decodeFracs lots evs a ++ decodeFracs lots evs b := by
+  simp [decodeFracs, filterMap_append]
+
+/-- decoding only looks at the events and lots the fractions mention -/
+theorem decodeFracs_congr (lots lots' : List InTx) (evs evs' : List TaxEv) (fs : List Frac)
+    (h : ∀ f ∈ fs, evs[f.ev]? = evs'[f.ev]? ∧ ∀ i, f.lot = some i → lots[i]? = lots'[i]?) :
+    decodeFracs lots evs fs = decodeFracs lots' evs' fs := by
+  unfold decodeFracs
+  induction fs with
+  | nil => rfl
+  | cons f t ih =>
+    obtain ⟨h1, h2⟩ := h f (mem_cons_self)
+    have iht := ih (fun g hg => h g (mem_cons_of_mem _ hg))
+    simp only [filterMap_cons, h1]
+    cases hl : f.lot with
+    | none => simp only [Option.bind_none, iht]
+    | some i => simp only [Option.bind_some, h2 i hl, iht]
+
+/-- hypothesis `LocalDatesMonotone`, spelled out for the pieces the truncation theorem needs -/
+structure DatesMonotone (ins : List InTx) (outs : List OutTx) (intras : List IntraTx) : Prop where
+  lots : (sortByTs (·.ts.us) ins).Pairwise (fun a b => a.ts.day ≤ b.ts.day)
+  events : (taxableEvents ins outs intras).Pairwise (fun a b => a.ts.day ≤ b.ts.day)
+  cross : ∀ l ∈ ins, ∀ e ∈ taxableEvents ins outs intras, l.ts.us ≤ e.ts.us → l.ts.day ≤ e.ts.day
+
+/-- **C09 on the executable pipeline**: computing on the history truncated at date `T` yields exactly the fractions of the full
+    computation whose taxable event is dated up to `T` — same pairing, same amounts, hence same figures. -/
+theorem computeFractions_truncate (sched : List (Int × Method)) (ins : List InTx) (outs : List OutTx) (intras : List IntraTx) (fs : List Fraction) (T : Int)
+    (hord : SheetOrder ins) (hy : SameInstantSameYear (taxableEvents ins outs intras)) (hm : DatesMonotone ins outs intras)
+    (h : computeFractions sched ins outs intras = .ok fs) :
+    computeFractions sched (ins.filter (keepIn T)) (outs.filter (keepOut T)) (intras.filter (keepIntra T)) =
+      .ok (fs.filter (fun f => decide (f.ev.ts.day ≤ T))) := by
+  obtain ⟨hlpos, hepos, es, out, hes0, hrun, hfs⟩ := computeFractions_ok sched ins outs intras fs h
+  have hevsorted : (taxableEvents ins outs intras).Pairwise (fun a b => a.ts.us ≤ b.ts.us) := taxableEvents_sorted ins outs intras
+  have hev_full : EvOK none es := engineEvents_evok sched _ es hes0 hevsorted hy
+  -- the truncated inputs give prefixes of the sorted lots and of the sorted events
+  have hlots' : sortByTs (·.ts.us) (ins.filter (keepIn T)) = (sortByTs (·.ts.us) ins).filter (keepIn T) := (sortByTs_filter _ _ _).symm
+  have hevs' := taxableEvents_truncate T ins outs intras
+  obtain ⟨postL, hL, hpostL⟩ := filter_prefix_of_sorted (fun l : InTx => l.ts.day) T (sortByTs (·.ts.us) ins) hm.lots
+  obtain ⟨postE, hE, hpostE⟩ := filter_prefix_of_sorted (fun e : TaxEv => e.ts.day) T (taxableEvents ins outs intras) hm.events
+  have hL' : sortByTs (·.ts.us) ins = sortByTs (·.ts.us) (ins.filter (keepIn T)) ++ postL := by rw [hlots']; exact hL
+  have hE' : taxableEvents ins outs intras =
+      taxableEvents (ins.filter (keepIn T)) (outs.filter (keepOut T)) (intras.filter (keepIntra T)) ++ postE := by rw [hevs']; exact hE
+  generalize hlp : sortByTs (·.ts.us) (ins.filter (keepIn T)) = lots' at *
+  generalize hep : taxableEvents (ins.filter (keepIn T)) (outs.filter (keepOut T)) (intras.filter (keepIntra T)) = evs' at *
+  -- events split accordingly
+  have hes : engineEvents sched (evs' ++ postE) = some es := by rw [← hE']; exact hes0
+  obtain ⟨ea, eb, hea, heb, hsplit⟩ := engineEvents_append sched evs' postE es hes
+  obtain ⟨hlenA, hspecA⟩ := engineEvents_spec sched evs' ea hea
+  obtain ⟨hlenB, hspecB⟩ := engineEvents_spec sched postE eb heb
+  -- both engine runs are runs of the greedy specification
+  have hord' : SheetOrder (ins.filter (keepIn T)) := sheetOrder_filter ins _ hord
+  have hsubE : ∀ e ∈ evs', e ∈ taxableEvents ins outs intras := by intro e he; rw [hE']; exact mem_append_left _ he
+  have hev_tr : EvOK none ea := by
+    apply engineEvents_evok sched evs' ea hea
+    · rw [hE'] at hevsorted; exact (pairwise_append.mp hevsorted).1
+    · intro a ha b hb hab; exact hy a (hsubE a ha) b (hsubE b hb) hab
+  have hctx_full := engine_eq_spec (lotCtx sched (sortByTs (·.ts.us) ins)) _ (lotCtx_sorted sched ins hord) (lotCtx_inj sched ins hord)
+    (lotCtx_bound_le sched _) (lotCtx_bound_mono sched _) es hev_full
+  have hctx_tr := engine_eq_spec (lotCtx sched (sortByTs (·.ts.us) (ins.filter (keepIn T)))) _ (lotCtx_sorted sched _ hord') (lotCtx_inj sched _ hord')
+    (lotCtx_bound_le sched _) (lotCtx_bound_mono sched _) ea hev_tr
+  rw [hlp] at hctx_tr
+  rw [hctx_full] at hrun
+  rw [hL', hsplit] at hrun
+  -- prefix theorem of the specification
+  have hsame := lotCtx_sameBelow sched lots' postL
+  have hbound : ∀ e ∈ ea, (lotCtx sched lots').bound e.ts = (lotCtx sched (lots' ++ postL)).bound e.ts ∧ (lotCtx sched lots').bound e.ts ≤ lots'.length := by
+    intro e he
+    obtain ⟨j, hj, hje⟩ := getElem_of_mem he
+    have hj' : j < evs'.length := by omega
+    obtain ⟨s, _, hs⟩ := hspecA j evs'[j] (getElem?_eq_getElem hj')
+    rw [getElem?_eq_getElem hj, hje] at hs
+    have hee := Option.some.inj hs
+    subst hee
+    simp only
+    refine ⟨(lotCtx_bound_prefix sched lots' postL _ ?_).symm, lotCtx_bound_le sched lots' _⟩
+    intro l hl
+    have hday := hpostL l hl
+    have hlin : l ∈ ins := by
+      have : l ∈ sortByTs (·.ts.us) ins := by rw [hL']; exact mem_append_right _ hl
+      exact (sortedIns_mem ins l).mp this
+    have hekeep : evs'[j].ts.day ≤ T := by
+      have : evs'[j] ∈ (taxableEvents ins outs intras).filter (keepEv T) := by rw [← hevs']; exact getElem_mem hj'
+      have := (mem_filter.mp this).2
+      simpa [keepEv] using this
+    apply Classical.byContradiction
+    intro hnot
+    have hle : l.ts.us ≤ evs'[j].ts.us := by omega
+    have := hm.cross l hlin evs'[j] (hsubE _ (getElem_mem hj')) hle
+    omega
+  have hagree : AgreeBelow lots'.length (fun i => ((lotCtx sched lots').L i).amount) (fun i => ((lotCtx sched (lots' ++ postL)).L i).amount) := by
+    intro i hi; simp only [hsame.lots i hi]
+  have hpre := runS_prefix (lotCtx sched lots') (lotCtx sched (lots' ++ postL)) lots'.length hsame ea eb _ _ 0 hagree hbound
+  cases htr : runS (lotCtx sched lots') (fun i => ((lotCtx sched lots').L i).amount) 0 ea with
+  | none => rw [htr] at hpre; simp only at hpre; rw [hpre] at hrun; cases hrun
+  | some o₁ =>
+    rw [htr] at hpre
+    simp only at hpre
+    obtain ⟨r1', _, hfull⟩ := hpre
+    rw [hfull] at hrun
+    cases ho2 : runS (lotCtx sched (lots' ++ postL)) r1' (0 + ea.length) eb with
+    | none => rw [ho2] at hrun; cases hrun
+    | some o₂ =>
+      rw [ho2] at hrun
+      simp only [Option.map_some, Option.some.injEq] at hrun
+      -- the truncated computation succeeds with the decoding of o₁
+      have hposA : ∀ e ∈ ea, ¬ e.earn → 0 < e.amount := by
+        intro e he _
+        obtain ⟨j, hj, hje⟩ := getElem_of_mem he
+        have hj' : j < evs'.length := by omega
+        obtain ⟨s, _, hs⟩ := hspecA j evs'[j] (getElem?_eq_getElem hj')
+        rw [getElem?_eq_getElem hj, hje] at hs
+        have hee := Option.some.inj hs
+        subst hee
+        have := hepos _ (hsubE _ (getElem_mem hj'))
+        simp only; omega
+      have hposB : ∀ e ∈ eb, ¬ e.earn → 0 < e.amount := by
+        intro e he _
+        obtain ⟨j, hj, hje⟩ := getElem_of_mem he
+        have hj' : j < postE.length := by omega
+        obtain ⟨s, _, hs⟩ := hspecB j postE[j] (getElem?_eq_getElem hj')
+        rw [getElem?_eq_getElem hj, hje] at hs
+        have hee := Option.some.inj hs
+        subst hee
+        have : postE[j] ∈ taxableEvents ins outs intras := by rw [hE']; exact mem_append_right _ (getElem_mem hj')
+        have := hepos _ this
+        simp only; omega
+      have hrun_tr : runM (lotCtx sched lots') MSt.init none 0 ea = some o₁ := by rw [hctx_tr, htr]
+      have hres := computeFractions_of sched (ins.filter (keepIn T)) (outs.filter (keepOut T)) (intras.filter (keepIntra T))
+        (by rw [hlp]; intro l hl; apply hlpos; rw [hL']; exact mem_append_left _ hl)
+        (by rw [hep]; intro e he; exact hepos e (hsubE e he)) ea o₁ (by rw [hep]; exact hea) (by rw [hlp]; exact hrun_tr)
+      rw [hres, hlp, hep, hfs, hL', hE', ← hrun, decodeFracs_append, filter_append]
+      -- fractions of o₁ are decoded alike and all kept; fractions of o₂ are all dropped
+      have hspec1 := (runS_spec (lotCtx sched lots') ea _ 0 o₁ hposA htr).2.1
+      have hspec2 := (runS_spec (lotCtx sched (lots' ++ postL)) eb _ (0 + ea.length) o₂ hposB ho2).2.1
+      have hdec1 : decodeFracs (lots' ++ postL) (evs' ++ postE) o₁ = decodeFracs lots' evs' o₁ := by
+        apply decodeFracs_congr
+        intro f hf
+        obtain ⟨j, e, hj, hfe, he1, he2⟩ := hspec1 f hf
+        have hjl : j < ea.length := by
+          apply Nat.lt_of_not_le; intro hle; rw [getElem?_eq_none hle] at hj; cases hj
+        refine ⟨by rw [hfe]; simp only [Nat.zero_add]; exact getElem?_append_left (by omega), ?_⟩
+        intro i hi
+        by_cases hearn : e.earn = true
+        · have := he1 hearn; rw [this] at hi; cases hi
+        · obtain ⟨_, i', hi', hib⟩ := he2 hearn
+          rw [hi] at hi'; cases hi'
+          have : i < lots'.length := Nat.lt_of_lt_of_le hib (lotCtx_bound_le sched lots' _)
+          exact getElem?_append_left this
+      have hkeep1 : (decodeFracs lots' evs' o₁).filter (fun f => decide (f.ev.ts.day ≤ T)) = decodeFracs lots' evs' o₁ := by
+        apply filter_eq_self.mpr
+        intro f hf
+        simp only [decodeFracs, mem_filterMap] at hf
+        obtain ⟨g, _, hg⟩ := hf
+        cases hev : evs'[g.ev]? with
+        | none => simp [hev] at hg
+        | some e =>
+          simp only [hev, Option.some.injEq] at hg
+          subst hg
+          have : e ∈ (taxableEvents ins outs intras).filter (keepEv T) := by rw [← hevs']; exact mem_of_getElem? hev
+          simpa [keepEv] using (mem_filter.mp this).2
+      have hdrop2 : (decodeFracs (lots' ++ postL) (evs' ++ postE) o₂).filter (fun f => decide (f.ev.ts.day ≤ T)) = [] := by
+        apply filter_eq_nil_iff.mpr
+        intro f hf
+        simp only [decodeFracs, mem_filterMap] at hf
+        obtain ⟨g, hgm, hg⟩ := hf
+        obtain ⟨j, e, hj, hfe, _, _⟩ := hspec2 g hgm
+        have hidx : g.ev = evs'.length + j := by omega
+        cases hev : (evs' ++ postE)[g.ev]? with
+        | none => simp [hev] at hg
+        | some e' =>
+          simp only [hev, Option.some.injEq] at hg
+          subst hg
+          have : e' ∈ postE := by
+            rw [hidx, getElem?_append_right (by omega)] at hev
+            exact mem_of_getElem? hev
+          have := hpostE e' this
+          simp; omega
+      rw [hdec1, hkeep1, hdrop2, append_nil]
+end Rp2
